@@ -217,6 +217,10 @@ type eofEval struct {
 	declOf  map[*types.Func]*ast.FuncDecl
 	eofTok  map[types.Object]bool // variables holding the current token (EOF at end of input)
 	predMem map[string]tri
+	// token-list parameters (ops ...token.TokenType) → does any call site of the function pass token.EOF in
+	// that list? triF: no site does (and every site is resolvable); triU otherwise
+	tokListHasEOF map[types.Object]tri
+	pkg           *packages.Package
 }
 
 // isCurrentCall: X.current() / X.peek(k>=0)
@@ -404,6 +408,16 @@ func (ev *eofEval) leaf(e ast.Expr) tri {
 				}
 			}
 			if x.Ellipsis.IsValid() {
+				// checkPositionIs(k, ops...) with ops a token-list parameter that no caller fills with EOF
+				if id, ok := ast.Unparen(x.Args[len(x.Args)-1]).(*ast.Ident); ok && len(x.Args) == 2 {
+					if v, ok := ev.tokListHasEOF[ev.info.Uses[id]]; ok && v == triF {
+						return triF
+					}
+					// ops := levelOperators[level]: a row of a package-level table none of whose rows lists EOF
+					if ev.localFromEOFFreeTable(ev.info.Uses[id]) {
+						return triF
+					}
+				}
 				return triU
 			}
 			if len(x.Args) == 2 {
@@ -412,6 +426,33 @@ func (ev *eofEval) leaf(e ast.Expr) tri {
 				}
 			}
 			return triF
+		}
+	case *ast.IndexExpr:
+		// membership of the cursor's token type in a package-level set: ops[p.current().Type()] — at the end
+		// of input the key is token.EOF, absent from the literal unless it is written there
+		if ev.isCursorTokenType(x.Index) {
+			if id, ok := ast.Unparen(x.X).(*ast.Ident); ok {
+				if v, ok := ev.info.Uses[id].(*types.Var); ok && ev.pkg != nil && v.Parent() == ev.pkg.Types.Scope() {
+					if mt, ok := v.Type().Underlying().(*types.Map); ok {
+						if b, ok := mt.Elem().Underlying().(*types.Basic); ok && b.Kind() == types.Bool {
+							if lit := ev.packageVarLiteral(v); lit != nil {
+								for _, el := range lit.Elts {
+									if kv, ok := el.(*ast.KeyValueExpr); ok {
+										if isTok, isEOF := ev.isEOFConst(kv.Key); isTok && isEOF {
+											return triU
+										} else if !isTok {
+											return triU
+										}
+									}
+								}
+								if !ev.varWrittenElsewhere(v) {
+									return triF
+								}
+							}
+						}
+					}
+				}
+			}
 		}
 	case *ast.BinaryExpr:
 		if x.Op == token.EQL || x.Op == token.NEQ {
@@ -506,6 +547,8 @@ func c01EOF(r *Run) {
 			ev.declOf[o] = fd
 		}
 	}
+	ev.pkg = ppkg
+	ev.computeTokListParams()
 	r.stat("cursor_accessors", len(acc.current)+len(acc.peek)+len(acc.isEOF)+len(acc.checkPos)+len(acc.typeOrEOF)+len(acc.nextCheck)+len(acc.next))
 
 	// accessor contracts (the summaries used above), verified on the accessor bodies
@@ -1037,4 +1080,184 @@ func c01AccessorContracts(r *Run, ppkg *packages.Package, acc *eofAccessors, ev 
 			return hasGuard, "it no longer rejects a mismatching current token before advancing"
 		})
 	}
+}
+
+// packageVarLiteral: the composite literal a package-level variable is initialised with.
+func (ev *eofEval) packageVarLiteral(v *types.Var) *ast.CompositeLit {
+	for _, f := range ev.pkg.Syntax {
+		for _, d := range f.Decls {
+			gd, ok := d.(*ast.GenDecl)
+			if !ok || gd.Tok != token.VAR {
+				continue
+			}
+			for _, sp := range gd.Specs {
+				vs := sp.(*ast.ValueSpec)
+				for i, nm := range vs.Names {
+					if ev.info.Defs[nm] == v && i < len(vs.Values) {
+						cl, _ := ast.Unparen(vs.Values[i]).(*ast.CompositeLit)
+						return cl
+					}
+				}
+			}
+		}
+	}
+	return nil
+}
+
+// varWrittenElsewhere: the package-level variable (or an element of it) is assigned in some function.
+func (ev *eofEval) varWrittenElsewhere(v *types.Var) bool {
+	written := false
+	for _, fd := range funcDecls(ev.pkg) {
+		if fd.Body == nil {
+			continue
+		}
+		ast.Inspect(fd.Body, func(n ast.Node) bool {
+			as, ok := n.(*ast.AssignStmt)
+			if !ok {
+				return true
+			}
+			for _, l := range as.Lhs {
+				e := ast.Unparen(l)
+				if ix, ok := e.(*ast.IndexExpr); ok {
+					e = ast.Unparen(ix.X)
+				}
+				if id, ok := e.(*ast.Ident); ok && ev.info.Uses[id] == v {
+					written = true
+				}
+			}
+			return !written
+		})
+	}
+	return written
+}
+
+// computeTokListParams fills tokListHasEOF: for every function of the package with a parameter that is a
+// list of token types, whether some call site hands token.EOF in that list.
+func (ev *eofEval) computeTokListParams() {
+	ev.tokListHasEOF = map[types.Object]tri{}
+	isTokList := func(t types.Type) bool {
+		sl, ok := t.Underlying().(*types.Slice)
+		return ok && isNamed(sl.Elem(), modPath+"/token", "TokenType")
+	}
+	for fn, fd := range ev.declOf {
+		sig := fn.Type().(*types.Signature)
+		for i := 0; i < sig.Params().Len(); i++ {
+			if !isTokList(sig.Params().At(i).Type()) {
+				continue
+			}
+			po := paramObjAt(ev.info, fd, i)
+			if po == nil {
+				continue
+			}
+			variadic := sig.Variadic() && i == sig.Params().Len()-1
+			res, sites := triF, 0
+			for _, cfd := range funcDecls(ev.pkg) {
+				if cfd.Body == nil {
+					continue
+				}
+				ast.Inspect(cfd.Body, func(n ast.Node) bool {
+					c, ok := n.(*ast.CallExpr)
+					if !ok || calleeFunc(ev.info, c) == nil || calleeFunc(ev.info, c).Origin() != fn.Origin() {
+						return true
+					}
+					sites++
+					var elems []ast.Expr
+					switch {
+					case variadic && !c.Ellipsis.IsValid():
+						if i <= len(c.Args) {
+							elems = c.Args[i:]
+						}
+					case i < len(c.Args):
+						if cl, ok := ast.Unparen(c.Args[i]).(*ast.CompositeLit); ok {
+							elems = cl.Elts
+						} else if id, ok := ast.Unparen(c.Args[i]).(*ast.Ident); ok {
+							// a package-level list, or the caller's own token-list parameter (judged there)
+							if v, ok := ev.info.Uses[id].(*types.Var); ok && v.Parent() == ev.pkg.Types.Scope() {
+								if cl := ev.packageVarLiteral(v); cl != nil && !ev.varWrittenElsewhere(v) {
+									elems = cl.Elts
+								} else {
+									res = triU
+								}
+							} else {
+								res = triU
+							}
+						} else {
+							res = triU
+						}
+					}
+					for _, el := range elems {
+						if isTok, isEOF := ev.isEOFConst(el); !isTok || isEOF {
+							res = triU
+						}
+					}
+					return true
+				})
+			}
+			if sites == 0 {
+				res = triU
+			}
+			ev.tokListHasEOF[po] = res
+		}
+	}
+}
+
+// localFromEOFFreeTable: o is a local defined (once) as T[i] for a package-level table T — a slice, array or
+// map of token lists written as a literal and never assigned elsewhere — no row of which contains token.EOF.
+func (ev *eofEval) localFromEOFFreeTable(o types.Object) bool {
+	if o == nil || ev.pkg == nil {
+		return false
+	}
+	var defs []ast.Expr
+	for _, fd := range funcDecls(ev.pkg) {
+		if fd.Body == nil || o.Pos() < fd.Pos() || o.Pos() > fd.End() {
+			continue
+		}
+		ast.Inspect(fd.Body, func(n ast.Node) bool {
+			if as, ok := n.(*ast.AssignStmt); ok && len(as.Lhs) == len(as.Rhs) {
+				for i, l := range as.Lhs {
+					if id, ok := l.(*ast.Ident); ok && (ev.info.Defs[id] == o || ev.info.Uses[id] == o) {
+						defs = append(defs, as.Rhs[i])
+					}
+				}
+			}
+			return true
+		})
+	}
+	if len(defs) != 1 {
+		return false
+	}
+	ix, ok := ast.Unparen(defs[0]).(*ast.IndexExpr)
+	if !ok {
+		return false
+	}
+	id, ok := ast.Unparen(ix.X).(*ast.Ident)
+	if !ok {
+		return false
+	}
+	v, ok := ev.info.Uses[id].(*types.Var)
+	if !ok || v.Parent() != ev.pkg.Types.Scope() || ev.varWrittenElsewhere(v) {
+		return false
+	}
+	lit := ev.packageVarLiteral(v)
+	if lit == nil {
+		return false
+	}
+	rows := 0
+	for _, el := range lit.Elts {
+		val := el
+		if kv, ok := el.(*ast.KeyValueExpr); ok {
+			val = kv.Value
+		}
+		row, ok := ast.Unparen(val).(*ast.CompositeLit)
+		if !ok {
+			return false
+		}
+		rows++
+		for _, t := range row.Elts {
+			if isTok, isEOF := ev.isEOFConst(t); !isTok || isEOF {
+				return false
+			}
+		}
+	}
+	return rows > 0
 }
